@@ -11,7 +11,10 @@ M = [
  ("m08_publish_dup_only_v31", P, "        request.encoded[0] |=  (dup << 3)   # set the dup flag\n        request.dup = dup", "        if self._version == v31:\n            request.encoded[0] |=  (dup << 3)   # set the dup flag\n        request.dup = dup", "C08,C02"),
  ("m09_notification_twice", B, "            self.callLater(0.1, self.onDisconnection, reason)", "            self.callLater(0.1, self.onDisconnection, reason)\n            self.callLater(0.2, self.onDisconnection, reason)", "C04,C13"),
  ("m11_pubrec_keeps_window_entry", P, "            request.alarm.cancel()\n            del self.factory.windowPublish[self.addr][response.msgId]\n            reply = PUBREL()", "            reply = PUBREL()", "C09,C05"),
- ("m13_window_zero_accepted", B, "        if not (0 < n <= self.MAX_WINDOW):", "        if not (0 <= n <= self.MAX_WINDOW):", "C20"),
+ ("m13_window_zero_accepted", B, "        if not (1 <= n <= self.MAX_WINDOW):", "        if not (0 <= n <= self.MAX_WINDOW):", "C20"),
+ ("m33_flags_not_checked_for_acks", B, "            if packet_flags != expected:", "            if packet_flags != expected and packet_type_name == \"PUBREL\":", "C16"),
+ ("m34_fixed_length_only_too_short", B, "            if len(packet) - lenLen - 1 != self.fixedLengths[packet_type_name]:", "            if len(packet) - lenLen - 1 < self.fixedLengths[packet_type_name]:", "C16"),
+ ("m35_backoff_limit_resets", I, "        if self._value < self.maxDelay:\n            self._k    *= self.factor", "        if self._value < self.maxDelay:\n            self._k    *= self.factor\n        else:\n            self._k = 1", "C08"),
  ("m14_clientid_23_rejected", B, "len(request.clientId) > 23:", "len(request.clientId) >= 23:", "C20"),
  ("m15_pingresp_no_cancel", B, "            self._pingReq.alarms.pop(0).cancel()\n", "            pass\n", "C15"),
  ("m16_ping_deadline_2k", B, "self._pingReq.alarms.append(self.callLater(self._pingReq.keepalive, doPingError))", "self._pingReq.alarms.append(self.callLater(2*self._pingReq.keepalive, doPingError))", "C15"),
